@@ -76,6 +76,8 @@ def tlc(module, cfg_text, name, workers=8, env=None, beh_out=None, timeout=1800,
                 m = DEPTH_RE.search(line)
                 if m:
                     res["depth"] = int(m.group(1))
+                if "Temporal properties were violated" in line and res["violated"] is None:
+                    res["violated"] = "temporal property"
                 if "is violated" in line or "Error:" in line:
                     if res["violated"] is None and "Invariant" in line:
                         mm = re.search(r"Invariant (\S+) is violated", line)
